@@ -83,6 +83,11 @@ Corpus ==
                                PrintS(Cond(Test(SF("s2", LI(2)), "defined", <<>>, TRUE), LI(1), LI(2))),
                                Set("z", Cond(Test(Filt("upper", SF("s3", LS(<<97>>)), <<>>), "defined", <<>>, FALSE), LI(7), LI(8))), PrintS(Var("z")),
                                For1("i", L12, <<If1(Test(SP("s4", Var("i")), "defined", <<>>, TRUE), <<T(<<45>>)>>)>>)>>),
+    \* the do tag evaluates its expression for what it does: a macro call, parent(), a filter chain all run
+    dotag |-> ("main" :> Lib \o <<T(<<97>>), Do(Call("mm", <<SP("s1", LI(1))>>)), Do(MCall("_self", "mm", <<LI(2), SP("s2", LI(3))>>)), Do(SF("s3", LI(4))), T(<<98>>)>>),
+    dotagimp |-> ("main" :> <<Import(LS(NT.t1), "L"), For1("i", L12, <<Do(MCall("L", "mm", <<SP("s1", Var("i"))>>))>>), T(<<98>>)>>) @@ ("t1" :> Lib),
+    dotagparent |-> ("main" :> <<Extends(LS(NT.t1)), Block("bb", <<Do(Call("parent", <<>>)), PrintS(SP("s1", LI(1)))>>)>>)
+                    @@ ("t1" :> <<T(<<60>>), Block("bb", <<PrintS(SP("s2", LI(2)))>>), T(<<62>>)>>),
     \* the spaceless tag around callbacks; a filter registered under the name spaceless is not what the tag uses
     spaceless |-> ("main" :> <<Spaceless(<<T(<<60, 97, 62, 32>>), PrintS(SP("s1", LI(1))), T(<<32, 60, 98, 62>>), PrintS(SF("s2", LS(<<60, 99, 62, 32, 60, 100, 62>>)))>>), PrintS(SP("s3", LI(2)))>>),
     deep    |-> ("main" :> <<Block("ob", <<For1("i", L12, <<If1(SP("s1", LB(TRUE)), <<Inc(LS(NT.t1))>>)>>)>>)>>)
@@ -96,6 +101,13 @@ Unresolved ==
     nofilter2 |-> [tp |-> ("main" :> <<PrintS(Filt("upper", Filt("nofilter", LS(sX), <<>>), <<>>))>>), err |-> "unknown"],
     nofilterloop |-> [tp |-> ("main" :> <<For1("i", Filt("nofilter", L12, <<>>), <<PrintS(Var("i"))>>)>>), err |-> "unknown"],
     nofilterapply |-> [tp |-> ("main" :> <<Apply("nofilter", <<>>, <<T(sX)>>)>>), err |-> "unknown"],
+    \* an apply whose body renders nothing still names its filter (empty text, a false if, an undefined variable)
+    nofilterapplyempty |-> [tp |-> ("main" :> <<T(<<97>>), Apply("nofilter", <<>>, <<>>), T(<<98>>)>>), err |-> "unknown"],
+    nofilterapplyempty2 |-> [tp |-> ("main" :> <<T(<<97>>), Apply("nofilter", <<>>, <<If1(LB(FALSE), <<T(sX)>>), PrintS(Var("nosuchvar"))>>), T(<<98>>)>>), err |-> "unknown"],
+    \* a second from-import that binds a name again, from a template that does not exist / whose body fails
+    nofromagain |-> [tp |-> ("main" :> <<From(LS(NT.t1), <<"mm">>, <<"mm">>), T(<<97>>), From(LS(NT.nx), <<"mm">>, <<"mm">>), T(sX)>>) @@ ("t1" :> Lib), err |-> "notfound"],
+    nofromagainalias |-> [tp |-> ("main" :> <<From(LS(NT.t1), <<"mm">>, <<"qq">>), Inc(LS(NT.t2))>>) @@ ("t1" :> Lib)
+                                 @@ ("t2" :> <<From(LS(NT.nx), <<"zz">>, <<"qq">>), T(sX)>>), err |-> "notfound"],
     nofilterloop2 |-> [tp |-> ("main" :> <<For("i", "", Filt("sort", Filt("nofilter", L12, <<>>), <<>>), <<PrintS(Var("i"))>>, <<T(sX)>>, TRUE)>>), err |-> "unknown"],
     nofilterloop3 |-> [tp |-> ("main" :> <<For1("i", Filt("reverse", Filt("merge", Filt("nofilter", L12, <<>>), <<Arr(<<LI(7)>>)>>), <<>>), <<PrintS(Var("i"))>>), T(sX)>>), err |-> "unknown"],
     \* a method of a Go value that returns an error, read as an attribute (directly, and below an "is defined")
